@@ -1,6 +1,9 @@
 //! Implements a SAX Parser for SCXML documents according to the W3C recommendation.
 //! See [W3C:SCXML Overview](/doc/W3C_SCXML_2024_07_13/index.html#overview).
 
+#[cfg(rfsm_verif)]
+use crate::verif_seams::collections::HashMap;
+#[cfg(not(rfsm_verif))]
 use std::collections::HashMap;
 use std::fs::File;
 use std::io::Read;
